@@ -76,6 +76,32 @@ def run(chk):
             chk.fail("statistics with no frames do not give the zero i-vector", dict(ctx, got=hexlist(wz)))
         pterms.append("{| pj_m := %s; pj_t := %s; pj_s := %s; pj_rtol := %s; pj_atol := %s; pj_out := %s |}" % (
             iv.ivm_term(ubm.means, T, sigma), cq.nat(t), iv.gs_term(st0), cq.fl(2.0 ** -26), cq.fl(1e-10), cq.vec(w)))
+        # statistics whose frame counter t was left at 0 although they hold counts (GMMStats.init_fields(n=..., sum_px=...) does that): the
+        # i-vector depends on N and F only
+        if i % 5 == 3:
+            import copy as _cp
+            st_t0 = _cp.copy(st0)
+            st_t0.t = 0
+            w_t0 = np.asarray(m.project(st_t0))
+            chk.count(1, key=("project, frame counter 0",))
+            if not np.allclose(w_t0, w, rtol=1e-12, atol=1e-14):
+                chk.fail("project() of statistics with non-zero counts but frame counter t = 0 gives %s instead of the posterior mean %s" % (w_t0.tolist(), w.tolist()), dict(ctx, t=0))
+        # covariances typed as integers and UPDATED by the public E/M functions: the result is that of the same values as floats
+        if i % 7 == 4:
+            from bob.learn.em import ivector as iv_module3
+            sig_i3 = np.asarray(np.clip(np.rint(sigma * 2.0 / float(sigma.min())), 1, 9), dtype=np.int64)
+            mi3, mf3 = iv.with_params(ubm, T, sig_i3.astype(float), t, floor=1e-5), iv.with_params(ubm, T, sig_i3.astype(float), t, floor=1e-5)
+            mi3.sigma = sig_i3.copy()
+            mi3.update_sigma = mf3.update_sigma = True
+            try:
+                iv_module3.m_step(mi3, iv_module3.e_step(mi3, stats))
+                iv_module3.m_step(mf3, iv_module3.e_step(mf3, stats))
+                chk.count(1, key=("m_step, integer-typed sigma",))
+                if not (np.allclose(np.asarray(mi3.sigma, dtype=float), np.asarray(mf3.sigma, dtype=float), rtol=1e-10, atol=1e-12) and np.allclose(mi3.T, mf3.T, rtol=1e-10, atol=1e-12)):
+                    chk.fail("one E/M iteration with covariance updating on a machine whose sigma was assigned as an integer array %s gives other covariances than on the same values as floats"
+                             % sig_i3.tolist(), dict(ctx, sigma_int=sig_i3.tolist()))
+            except Exception as e:
+                chk.fail("E/M iteration on a machine with integer-typed sigma raises %r" % (e,), dict(ctx, sigma_int=sig_i3.tolist()))
         # T / sigma are plain attributes: after an in-place edit of the arrays the machine holds (machine.sigma *= 4, machine.T[c] = 0) the
         # next projection is the posterior mean under the EDITED values (nothing derived from the old ones is kept)
         if i % 5 == 1:
